@@ -1,6 +1,6 @@
 (* Obligations on the control-flow skeletons and constants generated from the current source of /repo. *)
 From Coq Require Import NArith List String Bool.
-From Fsn Require Import CfgLang Cfg CfgExtra.
+From Fsn Require Import CfgLang Cfg.
 From FsnGen Require Import GenCfg GenConsts.
 Import ListNotations.
 
@@ -25,7 +25,3 @@ Proof. vm_compute. reflexivity. Qed.
 Lemma gen_no_global_state :
   gen_global_writes_linux = [] /\ gen_global_writes_freebsd = [] /\ gen_global_writes_windows = [] /\ gen_global_writes_solaris = [].
 Proof. vm_compute. repeat split; reflexivity. Qed.
-
-(* the reader registers a notification's watches before it sends its event (C19) *)
-Lemma gen_register_before_send : register_before_send gen_program = true.
-Proof. vm_compute. reflexivity. Qed.
